@@ -416,6 +416,11 @@ func moveOutFile(w *bytes.Buffer, param *syntax.StructMember,
 		_, err := w.Write(nullBytes)
 		return err
 	}
+	// A directory may be named with trailing separators.  The name of the
+	// link which is left behind in its place must not have them.
+	for len(filePath) > 1 && filePath[len(filePath)-1] == os.PathSeparator {
+		filePath = filePath[:len(filePath)-1]
+	}
 	// If file doesn't exist (e.g. stage just didn't create it)
 	// then report null
 	if info, err := os.Lstat(filePath); os.IsNotExist(err) {
